@@ -526,7 +526,7 @@ class OperatorOracle:
 
 class C05(Prop):
     pid = "C05"
-    lean_modules = ["UflVerif.Props.C05"]
+    lean_modules = ["UflVerif.Props.C05", "UflVerif.Props.C05Rebuild"]
     min_theorems = 8
     trusted = ["correspondence harness/props/c05.py + Drivers/Expr.lean `(mk ...)`; generator gen.py; serializer uflio.py; typecode translator",
                "modelled rather than verified: Python float arithmetic in literal folding (exact rationals in the model; generated literals are small dyadic rationals); "
